@@ -76,15 +76,16 @@ type heldResp struct {
 }
 
 type e2Machine struct {
-	nreader  int
-	nreset   int
-	nforeign int
-	nghost   int
-	nusedid  int
-	ghosted  map[int]bool
-	ntxfail  int
-	nreopen  int
-	patched  []patchDone // REST patches answered with success (schedule scenarios)
+	schedMode bool // the machine is driven by the schedule search: goroutines started by the code under test run in any order
+	nreader   int
+	nreset    int
+	nforeign  int
+	nghost    int
+	nusedid   int
+	ghosted   map[int]bool
+	ntxfail   int
+	nreopen   int
+	patched   []patchDone // REST patches answered with success (schedule scenarios)
 	// REST patches that were answered with an error in a run with injected faults (their caller retries later)
 	failedPatches []pt.Action
 	// REST patches of a document that already had a log which were answered with an error
@@ -1304,6 +1305,15 @@ func (m *e2Machine) Close() *pt.Violation {
 						}
 					}
 					_, _, got := c.h.Events(k)
+					if m.schedMode {
+						// under the schedule search the handler calls of two applied responses run in goroutines of their own
+						// (go callHandlers) and may be told in either order although the operations were applied in log order:
+						// what the handler events can still tell is "each exactly once"
+						got = append([]string{}, got...)
+						want = append([]string{}, want...)
+						sort.Strings(got)
+						sort.Strings(want)
+					}
 					if strings.Join(got, ",") != strings.Join(want, ",") {
 						class := "reordered-or-missing"
 						seen := map[string]bool{}
